@@ -1,4 +1,5 @@
 import MageModel.Parse.Ast
+import MageModel.Parse.Pkg
 /-!
 # C19 — mage:import exposes exactly the imported package's targets under its alias (tag recognition part)
 All placements of the tag, all lengths of the comment group, all alias spellings.
@@ -81,5 +82,59 @@ end Pinned
 
 example : getImportTag "mage:import" 0 Pinned.fieldsStub
     ⟨"example.com/x", true, some ["// about", "// mage:import"], none, none, true, 3⟩ = .root := by decide
+
+/-! ### one package, several aliases (D27) -/
+
+private theorem foldl_named_mem (tagged : List (String × Tagged)) (acc : List (String × String)) (x : String × String) :
+    x ∈ tagged.foldl namedStep acc ↔ x ∈ acc ∨ (x.1, Tagged.named x.2) ∈ tagged := by
+  induction tagged generalizing acc with
+  | nil => simp
+  | cons pt rest ih =>
+    obtain ⟨p, t⟩ := pt
+    simp only [List.foldl_cons]
+    rw [ih]
+    cases t with
+    | no => simp [namedStep]
+    | root => simp [namedStep]
+    | named a =>
+      simp only [namedStep, List.mem_cons]
+      by_cases hc : acc.contains (p, a) = true
+      · simp only [hc, if_true]
+        have hm : (p, a) ∈ acc := by simpa using hc
+        constructor
+        · rintro (h | h)
+          · exact Or.inl h
+          · exact Or.inr (Or.inr h)
+        · rintro (h | h | h)
+          · exact Or.inl h
+          · left
+            have : x = (p, a) := by
+              cases x; simp only [Prod.mk.injEq, Tagged.named.injEq] at h; simp [h.1, h.2]
+            rw [this]; exact hm
+          · exact Or.inr h
+      · simp only [hc]
+        simp only [Bool.false_eq_true, if_false, List.mem_append, List.mem_singleton]
+        constructor
+        · rintro ((h | h) | h)
+          · exact Or.inl h
+          · right; left; cases x; cases h; rfl
+          · exact Or.inr (Or.inr h)
+        · rintro (h | h | h)
+          · exact Or.inl (Or.inl h)
+          · left; right
+            cases x; simp only [Prod.mk.injEq, Tagged.named.injEq] at h; simp [h.1, h.2]
+          · exact Or.inr h
+
+/-- **Every aliased tag counts**: a (path, alias) pair is loaded exactly when some import spec is tagged
+`mage:import alias` for that path — so a package tagged under two aliases contributes under both, however the tags are
+spread over the files. -/
+theorem named_imports_exact (tagged : List (String × Tagged)) (path alias : String) :
+    (path, alias) ∈ collectNamed tagged ↔ (path, Tagged.named alias) ∈ tagged := by
+  unfold collectNamed
+  rw [foldl_named_mem]
+  simp
+
+example : collectNamed [("p/tools", .named "dev"), ("p/lib", .root), ("p/tools", .named "ci"), ("p/tools", .named "dev")] =
+    [("p/tools", "dev"), ("p/tools", "ci")] := by decide
 
 end MageModel.Props.C19
